@@ -43,7 +43,7 @@ THEOREMS = ["Okane.C03_assign", "Okane.C03_assign0", "Okane.C03_two", "Okane.C03
             "Okane.BookText.text_written", "Okane.BookText.text_written_bare", "Okane.BookText.posting_readFrom"]
 EXTRA_IMPORTS = ["Okane.Props.C03Text"]
 
-FLAVORS = ["omitted", "multi-omitted", "assign", "assign-zero", "two-omitted", "cost", "lot", "total-cost", "lot-and-cost", "expr"]
+FLAVORS = ["omitted", "multi-omitted", "assign", "assign-zero", "two-omitted", "cost", "lot", "total-cost", "lot-and-cost", "expr", "fresh-omitted-cancel"]
 
 
 def replay_f12(chk):
